@@ -74,6 +74,22 @@ func (x *g) v() *rt.Term {
 }
 
 func (x *g) term(d int) *rt.Term {
+	if d > 0 && x.p(3, "wideorlong") {
+		// sizes beyond the small ones: a compound of arity 9-10 (the engine allocates argument vectors of more
+		// than 8 terms on another path), a list of 12-20 elements
+		if x.p(50, "wide") {
+			args := make([]*rt.Term, x.n(9, 10, "widearity"))
+			for i := range args {
+				args[i] = x.term(0)
+			}
+			return rt.C("w", args...)
+		}
+		es := make([]*rt.Term, x.n(12, 20, "longlen"))
+		for i := range es {
+			es[i] = x.term(0)
+		}
+		return rt.List(es, nil)
+	}
 	k := x.n(0, 11, "termkind")
 	switch {
 	case k < 3:
